@@ -1,1 +1,109 @@
-/-! C03 — property theorems (stub; no obligations yet) -/
+import Ypv.Lemmas.EditSet
+/-!
+# C03 — a set changes exactly the matched nodes (and their aliases), nothing else
+
+Model: `Ypv.setValue` / `setStep` (`Model/Edit.lean`) = `Processor.set_value` → `_apply_change` →
+`_update_node` + `recurse` as repaired by `fixes/C03-1.patch`, over the list of matched addresses.
+Specification: `Ypv.setSpec` (`Spec/Edit.lean`): ONE pass over the ORIGINAL document in which a node
+is replaced iff its address is matched or it carries the anchor name of a matched node.
+-/
+namespace Ypv.C03
+open Ypv
+
+/-- the predicate of one model step is the target predicate of the one-address specification -/
+theorem isRef_eq_isTarget (d : Node) (a : Addr) (n : Node) (h : d.get? a = some n) :
+    isRef a n.anchor = isTarget d [a] := by
+  funext y m
+  simp only [isRef, isTarget, matchedAnchors, List.filterMap_cons, List.filterMap_nil, h, Option.bind_some]
+  cases hn : n.anchor <;> cases hm : m.anchor <;> simp [List.contains_cons, hn]
+  all_goals (rw [Bool.eq_iff_iff]; simp)
+
+/-- **set_step_eq_spec.** One matched address: the model step equals the specification — the
+matched node and every node carrying its anchor name (its aliases, under map keys and inside
+sequences alike) hold the new scalar with their anchor kept, nothing else is entered or changed
+(not equal scalars elsewhere, not keys spelled like the old value). -/
+theorem set_step_eq_spec (v : Scalar) (fmt : Fmt) (d : Node) (a : Addr) (n : Node) (s : Scalar)
+    (ha : a ≠ []) (hm : lastIsMember a = false) (hget : d.get? a = some n)
+    (hs : newScalar n.anchor.isSome v fmt = .ok s) :
+    setStep v fmt d a = .ok (setSpec d [a] s) := by
+  unfold setStep setSpec
+  simp [ha, hm, hget, hs, isRef_eq_isTarget d a n hget]
+
+/-- The document after the steps for `addrs` when every new scalar is `s`. -/
+def stepsDoc (s : Scalar) : Node → List Addr → Node
+  | d, [] => d
+  | d, a :: rest => stepsDoc s (setSpec d [a] s) rest
+
+/-- The targets of the addresses still to be processed are not affected by the steps already made
+(holds when the matched nodes are scalars and only scalars carry anchors: a step then replaces
+scalars by scalars with the same anchors at the same addresses). -/
+def Stable (s : Scalar) : Node → List Addr → Prop
+  | _, [] => True
+  | d, a :: rest => isTarget (setSpec d [a] s) rest = isTarget d rest ∧ Stable s (setSpec d [a] s) rest
+
+theorem isTarget_anchor_only (d : Node) (addrs : List Addr) (y : Addr) (n n' : Node)
+    (h : n.anchor = n'.anchor) : isTarget d addrs y n = isTarget d addrs y n' := by
+  simp [isTarget, h]
+
+theorem isTarget_cons (d : Node) (a : Addr) (rest : List Addr) :
+    (fun y n => isTarget d [a] y n || isTarget d rest y n) = isTarget d (a :: rest) := by
+  funext y n
+  simp only [isTarget, matchedAnchors, List.filterMap_cons, List.filterMap_nil, List.contains_cons]
+  cases hn : n.anchor with
+  | none => simp [List.contains_cons]
+  | some x =>
+    cases hg : (d.get? a).bind Node.anchor <;> simp [List.contains_cons, Bool.or_assoc, Bool.or_comm, Bool.or_left_comm]
+
+/-- /-  FULL STATEMENT (not proved): for every `d` in which only scalars carry anchors and every
+`addrs` whose nodes are scalars, `setValue v fmt d addrs = .ok (setSpec d addrs s)`.  -/
+**set_eq_spec_partial.** The sequence of model steps over ANY list of matched addresses equals the
+one-shot specification on the original document, provided the targets are `Stable`.
+Missing for the full statement: the lemma `Stable s d addrs` from "matched nodes are scalars and only
+scalars carry anchors" (`get?` through `mapAt`); everything else — in particular that the passes
+compose (`mapAt_mapAt`) — is proved. -/
+theorem set_eq_spec_partial (s : Scalar) : ∀ (d : Node) (addrs : List Addr), Stable s d addrs →
+    stepsDoc s d addrs = setSpec d addrs s
+  | d, [], _ => by
+    simp only [stepsDoc, setSpec]
+    exact (mapAt_none d _ _ (by intro y n; simp [isTarget, matchedAnchors]; cases n.anchor <;> simp)).symm
+  | d, a :: rest, h => by
+    obtain ⟨h1, h2⟩ := h
+    have ih := set_eq_spec_partial s (setSpec d [a] s) rest h2
+    simp only [stepsDoc, ih]
+    unfold setSpec at *
+    rw [h1, mapAt_mapAt d _ _ s (fun y n n' hh => isTarget_anchor_only d rest y n n' hh), isTarget_cons]
+
+/-- **set_frame.** The frame of every pass: a subtree in which no node is a target is returned
+unchanged; a mapping keeps all its keys in order (no key is ever renamed, however it is spelled);
+a sequence keeps its length, hence every element its position. -/
+theorem set_frame (p : Addr → Node → Bool) (f : Node → Node) :
+    (∀ d : Node, (∀ y n, p y n = false) → d.mapAt p f = d)
+    ∧ (∀ es, (mapAtEntries p f es).map Prod.fst = es.map Prod.fst)
+    ∧ (∀ i cs, (mapAtList p f i cs).length = cs.length) :=
+  ⟨fun d h => mapAt_none d p f h, mapAtEntries_keys p f, mapAtList_length p f⟩
+
+/-- **set_keeps_anchors.** A replaced node keeps its anchor name and every replaced node holds the
+same scalar: all nodes that carried one anchor name before still carry it and — being replaced
+together — are equal afterwards (the in-model reading of "no duplicate or undefined anchors"). -/
+theorem set_keeps_anchors (s : Scalar) (n m : Node) (h : n.anchor = m.anchor) :
+    putScalar s n = putScalar s m ∧ (putScalar s n).anchor = n.anchor := by
+  refine ⟨by simp [putScalar, h], putScalar_anchor s n⟩
+
+/-! ### Concrete witnesses -/
+
+def I (a : Option Str) (i : Int) : Node := .scalar a (.int i)
+
+/-- `[1, 1, 2]`, set `[1]`: only the second element changes (the pinned code changes both). -/
+example : setValue (.int 9) .default (.seq none [I none 1, I none 1, I none 2]) [[.idx 1]]
+    = .ok (.seq none [I none 1, I none 9, I none 2]) := by decide +kernel
+/-- `{a: b, b: x}`, set `a`: the key `b` stays (the pinned code renames it). -/
+example : setValue (.str ['z']) .default
+      (.map none [(.str ['a'], .scalar none (.str ['b'])), (.str ['b'], .scalar none (.str ['x']))]) [[.key (.str ['a'])]]
+    = .ok (.map none [(.str ['a'], .scalar none (.str ['z'])), (.str ['b'], .scalar none (.str ['x']))]) := by
+  decide +kernel
+/-- `a: &x 1`, `b: [*x, 2]`, set `a`: the alias inside the sequence follows. -/
+example : setValue (.int 5) .default
+      (.map none [(.str ['a'], I (some ['x']) 1), (.str ['b'], .seq none [I (some ['x']) 1, I none 2])]) [[.key (.str ['a'])]]
+    = .ok (.map none [(.str ['a'], I (some ['x']) 5), (.str ['b'], .seq none [I (some ['x']) 5, I none 2])]) := by
+  decide +kernel
+end Ypv.C03
